@@ -1,6 +1,6 @@
 """Per-property configuration of bin/check.py: engines, proof module, level, required theorems."""
 
-HOOK_COMMITS = ["cec8f7c"]
+HOOK_COMMITS = ["cec8f7c", "0b12eac"]
 
 NOT_CLAIMED = {}
 
